@@ -91,7 +91,7 @@ func c16RunH1Rewrite(tr *Transport, tc *c01H1Case, attempts int) (wires [][]byte
 // header map left behind.
 func TestVerif_C16_h1rewrite(t *testing.T) {
 	s := c01New(t, "C16", "h1rewrite",
-		"generator of h1wire (methods, URLs, Host override, 0..60 header keys in all spellings, header-order list in most cases: subset / superset / other case / duplicated / full, pseudo-header order list in a quarter, extra headers, Request.Close, proxy form, bufio or plain writer; bodies nil or in-memory = what a transparent re-send can replay), a third of the cases with 1..3 caller headers NEXT TO the bookkeeping keys (\"__\"-prefixed names such as __RequestVerificationToken, proper prefixes / suffixes / infixes / extensions / one-byte changes of __header_order__ and __pseudo_header_order__, in lower, upper and mixed case, half of them listed in the order list); ONE *http.Request is handed to persistConn.writeRequest 2 or 3 times in a row, each time on a new persistConn, as Transport.roundTrip does after a kept-alive connection turned out dead; compared with the model: the rendering of EVERY attempt (byte exact, or request line + line multiset + listed names in wire order + body in header-order mode) and the header map the request is left with (rendered by meaning: written values in their sanitised form, so that sanitising in place or on a copy is the same answer); oracle: net/http.ReadRequest sees every caller value once in every attempt, the line multiset of attempt k equals that of attempt 1, listed headers in list order in every attempt, no bookkeeping key, header map after = before up to the in-place sanitising of written values (same keys, order lists identical, values equal after CR/LF -> space and trimming); non-trivial = all attempts written")
+		"generator of h1wire (methods, URLs, Host override, 0..60 header keys in all spellings, header-order list in most cases: subset / superset / other case / duplicated / full, pseudo-header order list in a quarter, extra headers, Request.Close, proxy form, bufio or plain writer; bodies nil or in-memory = what a transparent re-send can replay), a third of the cases with 1..3 caller headers NEXT TO the bookkeeping keys (\"__\"-prefixed names such as __RequestVerificationToken, proper prefixes / suffixes / infixes / extensions / one-byte changes of __header_order__ and __pseudo_header_order__, in lower, upper and mixed case, half of them listed in the order list), a third of the cases with 1..3 headers of the VALUE-EDGE class (round 7: values beginning / ending with / consisting of white space that is not SP / HTAB — every unicode.IsSpace character beyond ASCII, zero-width and BOM characters, Latin-1 NEL / NBSP bytes — alone or next to SP / HTAB, new X-Edge names and appended to present keys; oracle: they arrive minus surrounding SP / HTAB only); ONE *http.Request is handed to persistConn.writeRequest 2 or 3 times in a row, each time on a new persistConn, as Transport.roundTrip does after a kept-alive connection turned out dead; compared with the model: the rendering of EVERY attempt (byte exact, or request line + line multiset + listed names in wire order + body in header-order mode) and the header map the request is left with (rendered by meaning: written values in their sanitised form, so that sanitising in place or on a copy is the same answer); oracle: net/http.ReadRequest sees every caller value once in every attempt, the line multiset of attempt k equals that of attempt 1, listed headers in list order in every attempt, no bookkeeping key, header map after = before up to the in-place sanitising of written values (same keys, order lists identical, values equal after CR/LF -> space and trimming); non-trivial = all attempts written")
 	r := s.Rand()
 	tr := T()
 	n := verifh.N(1500, 25000)
@@ -139,6 +139,17 @@ func TestVerif_C16_h1rewrite(t *testing.T) {
 				tc.header[HeaderOderKey] = order
 			}
 		}
+		// round 7: the value-edge class (white space beyond SP / HTAB at the edges of values)
+		var edged []string
+		if r.Intn(3) == 0 {
+			if tc.header == nil {
+				tc.header = http.Header{}
+			}
+			edged = verifh.C16AddEdgeValues(r, tc.header)
+			if order := tc.header[HeaderOderKey]; len(order) > 0 && r.Intn(2) == 0 {
+				tc.header[HeaderOderKey] = append(append([]string(nil), order...), edged[0])
+			}
+		}
 		attempts := 2 + r.Intn(2)
 		wires, reads, errs, after, perr := c16RunH1Rewrite(tr, tc, attempts)
 		human := fmt.Sprintf("%d writes of one request: %q %q host=%q hdr=%q cl=%d body=%d/%s close=%v extra=%q proxy=%v", attempts, tc.method, tc.rawURL, tc.host, tc.header, tc.cl, tc.bodyKind, tc.bodySpec, tc.close, tc.extra, tc.proxy)
@@ -181,6 +192,9 @@ func TestVerif_C16_h1rewrite(t *testing.T) {
 			if len(nb) > 0 {
 				s.Count("bookkeeping-neighbour-names")
 			}
+			if len(edged) > 0 {
+				s.Count("value-edge-class")
+			}
 			applies := c01OracleApplies(tc)
 			for a := 0; a < attempts; a++ {
 				if applies {
@@ -209,6 +223,22 @@ func TestVerif_C16_h1rewrite(t *testing.T) {
 						human += fmt.Sprintf(" ORACLE (write %d): header %q written %d time(s), the caller gave %d value(s)", a+1, k, got, len(tc.header[k]))
 					}
 				}
+				// value-edge class: every value arrives as given (CR / LF as spaces), minus surrounding SP / HTAB only
+				for _, k := range edged {
+					var got, want []string
+					for _, l := range c16WireLines(wires[a]) {
+						if l[0] == k {
+							got = append(got, l[1])
+						}
+					}
+					for _, v := range tc.header[k] {
+						want = append(want, strings.Trim(strings.NewReplacer("\n", " ", "\r", " ").Replace(v), " \t"))
+					}
+					if k != "" && c01ValidToken(k) && strings.Join(got, "\x00") != strings.Join(want, "\x00") {
+						ok = false
+						human += fmt.Sprintf(" ORACLE (write %d): header %q on the wire with %q, the caller gave %q", a+1, k, got, tc.header[k])
+					}
+				}
 				if good, why := c16ResendOracle("same", wires[0], wires[a], order); !good {
 					ok = false
 					human += fmt.Sprintf(" ORACLE (write %d vs write 1): %s", a+1, why)
@@ -222,7 +252,7 @@ func TestVerif_C16_h1rewrite(t *testing.T) {
 		line := c01H1Line("c16rewrite "+strconv.Itoa(attempts), tc, reads[0])
 		s.Case(line, strings.Join(parts, " | ")+" after="+c01Hdr(verifh.C16DescriptionOf(after)), ok, "", allWritten, human)
 	}
-	s.Need(t, "all-written", "order-mode", "plain-mode", "oracle-applied", "bookkeeping-neighbour-names")
+	s.Need(t, "all-written", "order-mode", "plain-mode", "oracle-applied", "bookkeeping-neighbour-names", "value-edge-class")
 	s.Finish()
 }
 
@@ -342,7 +372,7 @@ func c16XBag(pairs [][2]string) map[string][]string {
 // them, exactly as the caller gave them.
 func TestVerif_C16_xproto(t *testing.T) {
 	s := c01New(t, "C16", "xproto",
-		"one request description (client-level + request-level headers in all spellings as in lane resend, PLUS 1..3 request headers next to the bookkeeping keys: \"__\"-prefixed names, proper prefixes / suffixes / infixes / extensions / one-byte changes of __header_order__ and __pseudo_header_order__, lower / upper / mixed case, 1..2 values; order list none / request / client / both, sometimes naming the neighbours; pseudo-header order; cookies; body) built three times with the same calls and sent over HTTP/1.1 to the raw TCP peer (exact lines), over HTTP/2 (TLS, x/net server) and HTTP/3 (quic-go) to origins recording the header map; model-judged for the HTTP/2 and HTTP/3 origins (c16xbag: the caller fields the model's field list holds for the request handed to the transport = what the origin's handler sees; HTTP/1.1 bytes are model-judged by lanes resend / stale) + oracle: for every name the stacks do not own, the value multiset (values without surrounding blanks) is the same on the three wires; every neighbour name arrives on each wire with exactly the caller's values; no bookkeeping key on any wire; non-trivial = all three wires observed")
+		"one request description (client-level + request-level headers in all spellings as in lane resend, PLUS 1..3 request headers next to the bookkeeping keys: \"__\"-prefixed names, proper prefixes / suffixes / infixes / extensions / one-byte changes of __header_order__ and __pseudo_header_order__, lower / upper / mixed case, 1..2 values; in half of the cases 1..3 headers of the VALUE-EDGE class (round 7: white space beyond SP / HTAB at the edges of values, see h1rewrite); order list none / request / client / both, sometimes naming the neighbours; pseudo-header order; cookies; body) built three times with the same calls and sent over HTTP/1.1 to the raw TCP peer (exact lines), over HTTP/2 (TLS, x/net server) and HTTP/3 (quic-go) to origins recording the header map; model-judged for the HTTP/2 and HTTP/3 origins (c16xbag: the caller fields the model's field list holds for the request handed to the transport = what the origin's handler sees; HTTP/1.1 bytes are model-judged by lanes resend / stale) + oracle: for every name the stacks do not own, the value multiset (values without surrounding blanks) is the same on the three wires; every neighbour name arrives on each wire with exactly the caller's values; no bookkeeping key on any wire; non-trivial = all three wires observed")
 	log.SetOutput(io.Discard)
 	defer log.SetOutput(os.Stderr)
 	peer := c16StartScriptPeer(t)
@@ -377,6 +407,16 @@ func TestVerif_C16_xproto(t *testing.T) {
 		nb := verifh.C16AddNeighbours(r, tc.rHdr)
 		if len(tc.rOrder) > 0 && r.Intn(2) == 0 {
 			tc.rOrder = append(tc.rOrder, nb...)
+		}
+		// round 7: the value-edge class; the names are judged like the neighbours (exact values on each wire)
+		if r.Intn(2) == 0 {
+			edged := verifh.C16AddEdgeValues(r, tc.rHdr)
+			for _, k := range edged {
+				if strings.HasPrefix(strings.ToLower(k), "x-edge-") {
+					nb = append(nb, k)
+				}
+			}
+			s.Count("value-edge-class")
 		}
 		human := fmt.Sprintf("%s %s chdr=%q rhdr=%q setters=%v rorder=%q corder=%q pseudo=%v rcookies=%d ccookies=%d body=%d",
 			tc.method, tc.path, tc.cHdr, tc.rHdr, tc.viaSetters, tc.rOrder, tc.cOrder, tc.pseudo, len(tc.rCookies), len(tc.cCookies), len(tc.body))
@@ -475,6 +515,6 @@ func TestVerif_C16_xproto(t *testing.T) {
 		}
 		s.Observe(id, ok, "", true, human, why)
 	}
-	s.Need(t, "three-wires", "model-judged:h2", "model-judged:h3")
+	s.Need(t, "three-wires", "model-judged:h2", "model-judged:h3", "value-edge-class")
 	s.Finish()
 }
